@@ -1,23 +1,32 @@
 ------------------------------ MODULE ReplLoop ------------------------------
-(* Statement grouping of a script: as documented (a statement is a line, or a      *)
-(* multi-line block / array literal / string; characters inside strings and        *)
-(* comments do not count) versus as coded in node.Loop (raw character counts).     *)
+(* Statement grouping of a script (property C16): as documented -- a statement is a line, or a *)
+(* multi-line block / array literal / string; braces, brackets, quotes and semicolons inside   *)
+(* string literals and comments do not count; the last line counts with or without a final     *)
+(* line break -- versus as coded in node.Loop by raw character counts (ImplEnds), so that TLC  *)
+(* itself exhibits the scripts on which the two differ.  Each statement shape carries what it   *)
+(* writes and the value the REPL shows for it; the expected output of a script in file mode is  *)
+(* the concatenation of what its statements write, in REPL mode the transcript.                 *)
 EXTENDS Integers, Sequences, TLC, Json, FiniteSets
 CONSTANT MaxStmts
-\* a statement shape: its lines with the raw counts Loop looks at, what it writes, and its REPL value
+\* a line with the raw counts Loop looks at: { } [ ] " and \"
 L(txt, lb, rb, lk, rk, q, eq) == [txt |-> txt, lb |-> lb, rb |-> rb, lk |-> lk, rk |-> rk, q |-> q, eq |-> eq]
 Shapes == <<
   [name |-> "plain",     lines |-> << L("write(\"A\")", 0, 0, 0, 0, 2, 0) >>, out |-> "A", val |-> "nil"],
+  [name |-> "value",     lines |-> << L("1 + 2", 0, 0, 0, 0, 0, 0) >>, out |-> "", val |-> "3"],
   [name |-> "strLB",     lines |-> << L("write(\"{\")", 1, 0, 0, 0, 2, 0) >>, out |-> "{", val |-> "nil"],
   [name |-> "strRB",     lines |-> << L("write(\"}\")", 0, 1, 0, 0, 2, 0) >>, out |-> "}", val |-> "nil"],
   [name |-> "strLK",     lines |-> << L("write(\"[\")", 0, 0, 1, 0, 2, 0) >>, out |-> "[", val |-> "nil"],
+  [name |-> "strRK",     lines |-> << L("write(\"]\")", 0, 0, 0, 1, 2, 0) >>, out |-> "]", val |-> "nil"],
   [name |-> "cmtLB",     lines |-> << L("write(\"B\") ; {", 1, 0, 0, 0, 2, 0) >>, out |-> "B", val |-> "nil"],
+  [name |-> "cmtLK",     lines |-> << L("write(\"E\") ; [", 0, 0, 1, 0, 2, 0) >>, out |-> "E", val |-> "nil"],
   [name |-> "cmtQ",      lines |-> << L("write(\"C\") ; \"", 0, 0, 0, 0, 3, 0) >>, out |-> "C", val |-> "nil"],
   [name |-> "escQ",      lines |-> << L("write(\"q\\\"\")", 0, 0, 0, 0, 3, 1) >>, out |-> "q\"", val |-> "nil"],
   [name |-> "block",     lines |-> << L("if true {", 1, 0, 0, 0, 0, 0), L("write(\"D\")", 0, 0, 0, 0, 2, 0), L("}", 0, 1, 0, 0, 0, 0) >>, out |-> "D", val |-> "nil"],
+  [name |-> "blockstr",  lines |-> << L("if true {", 1, 0, 0, 0, 0, 0), L("write(\"}\")", 0, 1, 0, 0, 2, 0), L("write(\"F\")", 0, 0, 0, 0, 2, 0), L("}", 0, 1, 0, 0, 0, 0) >>, out |-> "}F", val |-> "nil"],
   [name |-> "array",     lines |-> << L("x = [1,", 0, 0, 1, 0, 0, 0), L("2]", 0, 0, 0, 1, 0, 0) >>, out |-> "", val |-> "[1, 2]"],
   [name |-> "mlstr",     lines |-> << L("write(\"a", 0, 0, 0, 0, 1, 0), L("b\")", 0, 0, 0, 0, 1, 0) >>, out |-> "a\nb", val |-> "nil"],
   [name |-> "blank",     lines |-> << L("", 0, 0, 0, 0, 0, 0) >>, out |-> "", val |-> ""],
+  [name |-> "comment",   lines |-> << L("; just a note", 0, 0, 0, 0, 0, 0) >>, out |-> "", val |-> ""],
   [name |-> "semi",      lines |-> << L("write(\";\")", 0, 0, 0, 0, 2, 0) >>, out |-> ";", val |-> "nil"]
 >>
 NS == Len(Shapes)
@@ -25,7 +34,7 @@ RECURSIVE Scripts(_)
 Scripts(n) == IF n = 0 THEN {<<>>} ELSE Scripts(n - 1) \cup {Append(s, i) : s \in {t \in Scripts(n - 1) : Len(t) = n - 1}, i \in 1..NS}
 RECURSIVE Flat(_)
 Flat(s) == IF Len(s) = 0 THEN <<>> ELSE Shapes[s[1]].lines \o Flat(Tail(s))
-\* ideal grouping: statement boundaries are the ends of the shapes (indices of last lines)
+\* documented grouping: statement boundaries are the ends of the shapes (indices of their last lines)
 RECURSIVE Ends(_, _)
 Ends(s, base) == IF Len(s) = 0 THEN <<>> ELSE <<base + Len(Shapes[s[1]].lines)>> \o Ends(Tail(s), base + Len(Shapes[s[1]].lines))
 \* as coded: counters over raw characters; a group closes when all are balanced
@@ -36,14 +45,19 @@ ImplEnds(ls, i, b, q, k) ==
            b2 == b + l.lb - l.rb  q2 == q + l.q - l.eq  k2 == k + l.lk - l.rk
        IN IF b2 = 0 /\ q2 % 2 = 0 /\ k2 = 0 THEN <<i>> \o ImplEnds(ls, i + 1, 0, q2, 0)
           ELSE ImplEnds(ls, i + 1, b2, q2, k2)
-ImplAgrees(s) == ImplEnds(Flat(s), 1, 0, 0, 0) = Ends(s, 0)
+RawCountsAgree(s) == ImplEnds(Flat(s), 1, 0, 0, 0) = Ends(s, 0)
 RECURSIVE Cat(_)
 Cat(ss) == IF Len(ss) = 0 THEN "" ELSE ss[1] \o Cat(Tail(ss))
-ExpOut(s) == Cat([i \in 1..Len(s) |-> Shapes[s[i]].out])
+FileOut(s) == Cat([i \in 1..Len(s) |-> Shapes[s[i]].out])
+ReplOut(s) == Cat([i \in 1..Len(s) |-> Shapes[s[i]].out \o (IF Shapes[s[i]].val = "" THEN "" ELSE "> " \o Shapes[s[i]].val \o "\n")])
 VARIABLES sc, done
+vars == <<sc, done>>
 Init == sc \in (Scripts(MaxStmts) \ {<<>>}) /\ done = FALSE
 Next == /\ ~done /\ done' = TRUE /\ UNCHANGED sc
         /\ PrintT("OBS " \o ToJson([names |-> [i \in 1..Len(sc) |-> Shapes[sc[i]].name],
                                     lines |-> [i \in 1..Len(Flat(sc)) |-> Flat(sc)[i].txt],
-                                    out |-> ExpOut(sc), impl |-> ImplAgrees(sc)]))
+                                    file |-> FileOut(sc), repl |-> ReplOut(sc), rawcounts |-> RawCountsAgree(sc)]))
+Spec == Init /\ [][Next]_vars
+\* sanity of the documented grouping: every statement ends exactly once, in order, and the last line ends the last one
+EndsSane == LET e == Ends(sc, 0) IN Len(e) = Len(sc) /\ (\A i \in 1..(Len(e) - 1) : e[i] < e[i + 1]) /\ e[Len(e)] = Len(Flat(sc))
 =============================================================================
